@@ -130,6 +130,27 @@ func runC19(b *fw.B) {
 		checkSqrt(n, n > 1<<32)
 	}
 
+	// ---- min / max
+	for i := 0; i < 2000; i++ {
+		x, y := b.Rng.Uint64()>>uint(b.Rng.IntN(64)), b.Rng.Uint64()>>uint(b.Rng.IntN(64))
+		if i%5 == 0 {
+			y = x
+		}
+		if i%7 == 0 {
+			x = ^uint64(0)
+		}
+		b.Case("minmax", fmt.Sprintf("MinU64/MaxU64(%d, %d)", x, y))
+		mn, mx := zmath.MinU64(x, y), zmath.MaxU64(x, y)
+		wmn, wmx := x, y
+		if y < x {
+			wmn, wmx = y, x
+		}
+		b.Inc("minmax_checked")
+		if mn != wmn || mx != wmx {
+			b.Violate("minmax/wrong", fmt.Sprintf("MinU64(%d,%d)=%d MaxU64=%d, want %d and %d", x, y, mn, mx, wmn, wmx), nil)
+		}
+	}
+
 	// ---- power of two helpers
 	pow2 := func(n uint64) {
 		b.Case("pow2", fmt.Sprintf("IsPowerOfTwo/NextPowerOfTwo(%d)", n))
